@@ -316,8 +316,10 @@ def definitions(ctx, col):
     # partition asymmetry
     d = repo.get_def(f"{LM}.partition_asymmetry")
     rets = _ret(d)
-    last = rets[-1] if rets else None
-    ok = False
+    # the formula is the returned quotient, wherever it stands (the constant returned for equal subtrees may come first or last)
+    quot = [r for r in rets if isinstance(r.value, ast.BinOp) and isinstance(r.value.op, ast.Div)]
+    last = quot[0] if len(quot) == 1 else None
+    ok = None if last is None else False
     if last is not None:
         try:
             w = {"n1": Fraction(5), "n2": Fraction(2)}
